@@ -1,7 +1,7 @@
 (** Proofs about Model/HashMap.v: the bucket array behaves like a plain association list, for
     every key type whose equality is symmetric, transitive and compatible with the hash, every
     initial capacity >= 1, every resize policy and every history. *)
-From Coq Require Import NArith Bool Arith Lia List Permutation.
+From Coq Require Import NArith ZArith Bool Arith Lia List Permutation.
 From GT Require Import Model.Index Model.HashMap.
 Import ListNotations.
 
@@ -449,8 +449,104 @@ Section Refine.
       (cap < W64)%N -> ops_ok ops -> no_overflow ->
       run K V hash eqb need (new_hashmap K V cap) ops <> None.
   Proof. intros. eapply run_total; eauto. now apply inv_new. Qed.
+  (** * totality for policies that may fire at any capacity, as long as the number of entries
+      stays below a bound (the real load-factor policy: see [need75_upto] below) *)
+  Definition no_overflow_upto (B : nat) : Prop :=
+    forall t c, t <= B -> need t c = true -> (c * 2 < W64)%N.
+
+  Lemma rehash_total_b : forall B m,
+      no_overflow_upto B -> hm_total m <= B -> (1 <= hm_cap m < W64)%N -> rehash K V hash need m <> None.
+  Proof.
+    intros B m NO HT Hc. unfold rehash. destruct (need (hm_total m) (hm_cap m)) eqn:E; [|discriminate].
+    apply NO in E; auto.
+    destruct (reinsert_total (w64 (hm_cap m * 2)) (concat (hm_arr m)) (repeat [] (N.to_nat (w64 (hm_cap m * 2))))) as [Y HY].
+    - unfold w64. rewrite N.mod_small by auto. lia.
+    - apply repeat_length.
+    - rewrite HY. discriminate.
+  Qed.
+
+  Lemma put_total_b : forall B m a k v,
+      no_overflow_upto B -> Inv m a -> S (length a) <= B -> put K V hash eqb need m k v <> None.
+  Proof.
+    intros B m a k v NO I HB. unfold put.
+    destruct (slot_bucket m a k I) as [b Hb]. rewrite Hb.
+    destruct (bucket_set k v b); [discriminate|].
+    apply (rehash_total_b B); auto; simpl.
+    - rewrite (inv_total _ _ I). exact HB.
+    - apply (inv_cap _ _ I).
+  Qed.
+
+  Lemma assoc_put_length : forall a k v, length (assoc_put K V eqb a k v) <= S (length a).
+  Proof.
+    intros a k v. unfold assoc_put. destruct (bucket_set k v a) as [a'|] eqn:E.
+    - destruct (bucket_set_some _ _ _ _ E) as (l1 & k' & v' & l2 & -> & -> & _).
+      rewrite !app_length. simpl. lia.
+    - rewrite app_length. simpl. lia.
+  Qed.
+
+  Lemma run_total_b : forall B ops m a,
+      ops_ok ops -> no_overflow_upto B -> Inv m a -> length a + length ops <= B ->
+      run K V hash eqb need m ops <> None.
+  Proof.
+    induction ops as [|o ops IH]; simpl; intros m a HO NO I HB; [discriminate|].
+    inversion HO as [|? ? Ok HO']; subst. destruct o as [k v|k]; simpl in Ok.
+    - destruct (put K V hash eqb need m k v) as [m1|] eqn:P;
+        [|eapply (put_total_b B) in P; eauto; lia].
+      eapply put_refines in P; eauto.
+      assert (HB' : length (assoc_put K V eqb a k v) + length ops <= B)
+        by (pose proof (assoc_put_length a k v); lia).
+      specialize (IH _ _ HO' NO P HB').
+      destruct (run K V hash eqb need m1 ops) as [[? ?]|]; [discriminate|congruence].
+    - rewrite (value_refines m a k Ok I).
+      assert (HB' : length a + length ops <= B) by lia.
+      specialize (IH _ _ HO' NO I HB').
+      destruct (run K V hash eqb need m ops) as [[? ?]|]; [discriminate|congruence].
+  Qed.
+
+  Theorem hashmap_total_bounded_gen : forall B cap ops,
+      (cap < W64)%N -> ops_ok ops -> no_overflow_upto B -> length ops <= B ->
+      run K V hash eqb need (new_hashmap K V cap) ops <> None.
+  Proof.
+    intros B cap ops Hc HO NO HB.
+    apply (run_total_b B ops _ [] HO NO (inv_new cap Hc)). simpl. exact HB.
+  Qed.
 End Refine.
 
 (** capacity 0 behaves as capacity 1 (NewHashMap: if size == 0 { size = 1 }) *)
 Lemma hashmap_capacity_zero : forall K V, new_hashmap K V 0 = new_hashmap K V 1.
 Proof. reflexivity. Qed.
+
+(** the load test of hashmap.go with loadfactor 0.75, "float64(total) >= float64(capacity)*0.75"
+    (Model/Compare.v [need75]: capacity*3 <= total*4), never makes the doubling wrap around as
+    long as the map holds at most 2^62 entries *)
+Definition need75_model (total : nat) (cap : N) : bool := (Z.of_N cap * 3 <=? Z.of_nat total * 4)%Z.
+
+Lemma need75_upto : no_overflow_upto need75_model (2 ^ 62).
+Proof.
+  intros t c Ht H. unfold need75_model in H. apply Z.leb_le in H.
+  assert (Z.of_nat t <= 2 ^ 62)%Z.
+  { apply Nat2Z.inj_le in Ht. rewrite Nat2Z.inj_pow in Ht. exact Ht. }
+  apply N2Z.inj_lt. rewrite N2Z.inj_mul. change (Z.of_N W64) with (2 ^ 64)%Z. change (Z.of_N 2) with 2%Z.
+  assert (2 ^ 64 = 4 * 2 ^ 62)%Z by reflexivity. lia.
+Qed.
+
+Lemma le_pow62 : forall n, (N.of_nat n <= 2 ^ 62)%N -> n <= 2 ^ 62.
+Proof.
+  intros n H. apply Nat2Z.inj_le. rewrite Nat2Z.inj_pow.
+  apply N2Z.inj_le in H. rewrite nat_N_Z in H. exact H.
+Qed.
+
+(** totality under the real policy: at most 2^62 operations (hence at most 2^62 entries) *)
+Theorem hashmap_total_real_policy_gen :
+  forall (K V : Type) (hash : K -> N) (eqb : K -> K -> bool) (ok : K -> Prop),
+    (forall a b, ok a -> ok b -> eqb a b = true -> eqb b a = true) ->
+    (forall a b c, ok a -> ok b -> ok c -> eqb a b = true -> eqb b c = true -> eqb a c = true) ->
+    (forall a b, ok a -> ok b -> eqb a b = true -> hash a = hash b) ->
+    forall (cap : N) (ops : list (op K V)),
+      (cap < W64)%N -> ops_ok K V ok ops -> (N.of_nat (length ops) <= 2 ^ 62)%N ->
+      run K V hash eqb need75_model (new_hashmap K V cap) ops <> None.
+Proof.
+  intros K V hash eqb ok S T C cap ops Hc HO HB.
+  apply (hashmap_total_bounded_gen K V hash eqb need75_model ok S T C (2 ^ 62) cap ops Hc HO need75_upto).
+  now apply le_pow62.
+Qed.
